@@ -609,7 +609,8 @@ Definition part_result (g : gmeta) (m : mbase) (off : N) (ts : list tok) (seen :
   | PRest seen' rest =>
       if mand_ok g seen' then
         exists m' consumed, ts = consumed ++ rest /\ r = Ok (m', off + lenN (ser consumed)) /\
-          part_rel g m' seen' /\ Permutation (mflat m') (mflat m ++ map tok_pair consumed)
+          part_rel g m' seen' /\ Permutation (mflat m') (mflat m ++ map tok_pair consumed) /\
+          (forall f, memN f seen = true -> memN f seen' = true)
       else exists e, r = Exc e
   end.
 
@@ -617,7 +618,8 @@ Lemma finish_result g m off pos lvp lvo seen ts :
   wf_table c false g = true -> part_rel g m seen ->
   (if mand_ok g seen then
      exists m' consumed, ts = consumed ++ ts /\ dec_finish false m off pos lvp lvo = Ok (m', off + lenN (ser consumed)) /\
-       part_rel g m' seen /\ Permutation (mflat m') (mflat m ++ map tok_pair consumed)
+       part_rel g m' seen /\ Permutation (mflat m') (mflat m ++ map tok_pair consumed) /\
+       (forall f, memN f seen = true -> memN f seen = true)
    else exists e, dec_finish false m off pos lvp lvo = Exc e).
 Proof.
   intros Hwf (Hst & Hsubs & Hseen).
@@ -626,7 +628,7 @@ Proof.
   destruct (mand_ok g seen) eqn:Hmo.
   - assert (Hfm : find_missing (mb_fp m) = None) by (apply Hmand; reflexivity). rewrite Hfm.
     exists m, []. cbn [app map andb]. rewrite lenN_ser_nil, N.add_0_r, app_nil_r.
-    split; [reflexivity|]. split; [reflexivity|]. split; [unfold part_rel; auto | reflexivity].
+    split; [reflexivity|]. split; [reflexivity|]. split; [unfold part_rel; auto|]. split; [reflexivity | auto].
   - destruct (find_missing (mb_fp m)) as [f0|] eqn:Hfm; [eauto|].
     destruct Hmand as [Hm1 _]. discriminate (Hm1 eq_refl).
 Qed.
@@ -682,7 +684,8 @@ Proof.
           exists m'' consumed, t :: r = consumed ++ rest /\
             DEC mf m' (off1 + lenN (ser cons1)) pos1 lvp lvo (tagbuf_after (itoa_N (k_tag t)) tb)
               = Ok (m'', off + lenN (ser consumed)) /\
-            part_rel g m'' seen' /\ Permutation (mflat m'') (mflat m ++ map tok_pair consumed)
+            part_rel g m'' seen' /\ Permutation (mflat m'') (mflat m ++ map tok_pair consumed) /\
+            (forall f, memN f seen = true -> memN f seen' = true)
         else exists e, DEC mf m' (off1 + lenN (ser cons1)) pos1 lvp lvo (tagbuf_after (itoa_N (k_tag t)) tb) = Exc e
     end).
   { intros m' cons1 r' Er Hrel' Hperm.
@@ -699,14 +702,15 @@ Proof.
     unfold part_result in HI.
     destruct (sp_fields sf g false (k_tag t :: seen) r') as [|seen' rest]; [exact HI|].
     destruct (mand_ok g seen'); [|exact HI].
-    destruct HI as (m'' & cons2 & Er' & Hres & Hrel'' & Hperm2).
-    exists m'', (t :: cons1 ++ cons2). split; [|split; [|split]].
+    destruct HI as (m'' & cons2 & Er' & Hres & Hrel'' & Hperm2 & Hmono).
+    exists m'', (t :: cons1 ++ cons2). split; [|split; [|split; [|split]]].
     - subst r'. cbn [app]. rewrite <- app_assoc. reflexivity.
     - rewrite Hres. f_equal. f_equal. unfold off1. rewrite ser_cons, ser_app, !lenN_app. lia.
     - assumption.
     - eapply perm_trans; [exact Hperm2|].
       eapply perm_trans; [apply Permutation_app_tail; exact Hperm|].
-      rewrite <- app_assoc. apply Permutation_app_head. cbn [map app]. rewrite map_app. reflexivity. }
+      rewrite <- app_assoc. apply Permutation_app_head. cbn [map app]. rewrite map_app. reflexivity.
+    - intros f Hf0. apply Hmono. rewrite memN_cons, Hf0. apply orb_true_r. }
   unfold opt_group in *.
   rewrite (group_strip _ _ Hs) in *.
   destruct (t_group tr') eqn:Hg; cbn [andb] in *.
@@ -1062,6 +1066,16 @@ Proof.
   split; [assumption|]. intros md Hin. rewrite forallb_forall in A10. auto.
 Qed.
 
+Lemma decoded_has c bytes g m seen' m' off off' ignore f :
+  wf_table c false g = true -> part_inv g m ->
+  mbase_decode c real_caps bytes m off ignore false = Ok (m', off') ->
+  part_rel g m' seen' -> memN f seen' = true -> In f (pos_tags m').
+Proof.
+  intros Hwf Hinv Hres (_ & _ & Hseen) Hm.
+  destruct (mbase_decode_sound _ _ _ _ _ _ _ _ _ _ Hwf Hinv Hres) as [(_ & _ & _ & Hiff & _) _].
+  apply Hiff. apply Hseen. assumption.
+Qed.
+
 Section Assembly.
 Variable c : ctx.
 Hypothesis Hwf : wf_ctx c = true.
@@ -1096,8 +1110,14 @@ Lemma decode_parts :
       | PViol => exists e, decode_result = Exc e
       | PRest _ r3 =>
           exists h b t tl, decode_result = Ok (mkMsg (md_type md) h b t, tl) /\
-            (r3 = [] -> exists extra,
-               Permutation (mflat h ++ mflat b ++ mflat t) (init_pairs ++ map tok_pair mid ++ extra))
+            (r3 = [] -> exists cH cB cT extra,
+               Permutation (map tok_pair (cH ++ cB ++ cT)) (map tok_pair mid ++ extra) /\
+               (forall e, In e extra -> e = tok_pair t10) /\
+               Permutation (mflat h) (map snd (c_hdr_init c) ++ map tok_pair cH) /\
+               Permutation (mflat b) (map tok_pair cB) /\
+               Permutation (mflat t) (map snd (c_trl_init c) ++ map tok_pair cT) /\
+               no_auto (c_header c) cH = true /\ forallb (fun t => negb (k_tag t =? 10)) cT = true /\
+               In 9 (pos_tags h) /\ In 35 (pos_tags h) /\ In 10 (pos_tags t))
       end
     end
   end.
@@ -1151,7 +1171,14 @@ Proof.
   { destruct PH as (e & He). rewrite He. cbn [bind]. eauto. }
   destruct (mand_ok (c_header c) sH).
   2:{ destruct PH as (e & He). rewrite He. cbn [bind]. eauto. }
-  destruct PH as (h & cH & Er & HresH & _ & HpermH). rewrite HresH in *. cbn [bind] in *.
+  destruct PH as (h & cH & Er & HresH & HrelH & HpermH & HmonoH).
+  assert (Hin9 : In 9 (pos_tags h)).
+  { eapply (decoded_has c bytes _ _ sH h); [exact Hwh | exact (part_init_inv _ _ _ Hwh Hih) | exact HresH | exact HrelH |].
+    apply HmonoH. reflexivity. }
+  assert (Hin35 : In 35 (pos_tags h)).
+  { eapply (decoded_has c bytes _ _ sH h); [exact Hwh | exact (part_init_inv _ _ _ Hwh Hih) | exact HresH | exact HrelH |].
+    apply HmonoH. reflexivity. }
+  rewrite HresH in *. cbn [bind] in *.
   (* body *)
   rewrite Er in Hokr, Hath. destruct (toks_ok_app _ _ _ Hokr) as [_ Hok1].
   pose proof (at_suffix _ _ _ _ _ _ Hath) as Hatb.
@@ -1166,7 +1193,7 @@ Proof.
   { destruct PB as (e & He). rewrite He. cbn [bind]. eauto. }
   destruct (mand_ok (md_meta md) sB).
   2:{ destruct PB as (e & He). rewrite He. cbn [bind]. eauto. }
-  destruct PB as (b & cB & Er1 & HresB & _ & HpermB). rewrite HresB in *. cbn [bind] in *.
+  destruct PB as (b & cB & Er1 & HresB & _ & HpermB & _). rewrite HresB in *. cbn [bind] in *.
   rewrite mflat_create in HpermB. cbn [app] in HpermB.
   (* trailer *)
   rewrite Er1 in Hok1, Hatb. destruct (toks_ok_app _ _ _ Hok1) as [_ Hok2].
@@ -1183,9 +1210,10 @@ Proof.
     { rewrite Hbl. unfold r. rewrite ser_app, lenN_app. cbn [ser flat_map]. rewrite app_nil_r, (lenN_ser_tok10 _ E10 L10). lia. }
     replace (lenN bytes + 4294967296 - 7) with (lenN bytes - 7 + 1 * 4294967296) by lia.
     rewrite N.mod_add by lia. apply N.mod_small. lia. }
-  assert (Hperm0 : Permutation (mflat h ++ mflat b) (map snd (c_hdr_init c) ++ map tok_pair (cH ++ cB))).
-  { rewrite map_app, app_assoc. apply Permutation_app; [|assumption].
-    eapply perm_trans; [exact HpermH|]. apply Permutation_app_tail. apply mflat_mk_part. }
+  assert (HpH : Permutation (mflat h) (map snd (c_hdr_init c) ++ map tok_pair cH)).
+  { eapply perm_trans; [exact HpermH|]. apply Permutation_app_tail. apply mflat_mk_part. }
+  assert (HnaH : no_auto (c_header c) cH = true).
+  { rewrite Er in Hnah. apply no_auto_app in Hnah. apply Hnah. }
   assert (Hmid : r = (cH ++ cB) ++ r2) by (rewrite Er, Er1, app_assoc; reflexivity).
   destruct r2 as [|x2 r2x].
   { (* the last token was taken by the header or the body: the trailer decoder starts past its range *)
@@ -1200,19 +1228,20 @@ Proof.
     destruct (mand_ok_ext _ 10 [] tr10 Hndt Hf10 Hm10) as [_ Hme]. rewrite Hme in HF.
     destruct (mand_ok (c_trailer c) []).
     2:{ destruct HF as (e & He). rewrite HRT, He. cbn [bind]. eauto. }
-    destruct HF as (t & cT & EcT & HresT & _ & HpermT). rewrite HRT, HresT. cbn [bind].
+    destruct HF as (t & cT & EcT & HresT & HrelT & HpermT & _).
+    assert (Hin10 : In 10 (pos_tags t)).
+    { apply (decoded_has c bytes (c_trailer c) m0t [10] t offt (offt + lenN (ser cT)) 7 10 Hwt (part_init_inv _ _ _ Hwt Hit));
+        [fold RT; rewrite HRT; exact HresT | exact HrelT | reflexivity]. }
+    rewrite HRT, HresT. cbn [bind].
     exists h, b, t, (offt + lenN (ser cT)). split; [reflexivity|]. intros _.
-    exists [tok_pair t10].
     assert (HcT : cT = []) by (symmetry in EcT; apply app_eq_nil in EcT; apply EcT).
     subst cT. cbn [map] in HpermT. rewrite app_nil_r in HpermT, Hmid.
-    assert (HpT : Permutation (mflat t) (map snd (c_trl_init c))).
-    { eapply perm_trans; [exact HpermT|]. apply mflat_mk_part. }
-    rewrite app_assoc. eapply perm_trans; [apply Permutation_app; [exact Hperm0 | exact HpT]|].
-    rewrite <- Hmid. unfold r, init_pairs. rewrite map_app. cbn [map].
-    rewrite <- !app_assoc. apply Permutation_app_head.
-    change (map tok_pair mid ++ [tok_pair t10] ++ map snd (c_trl_init c))
-      with (map tok_pair mid ++ ([tok_pair t10] ++ map snd (c_trl_init c))).
-    rewrite app_assoc. apply Permutation_app_comm. }
+    exists cH, cB, [], [tok_pair t10].
+    split. { rewrite app_nil_r, <- Hmid. unfold r. rewrite map_app. reflexivity. }
+    split. { intros e [<-|[]]. reflexivity. }
+    split; [exact HpH|]. split; [exact HpermB|].
+    split. { cbn [map]. rewrite app_nil_r. eapply perm_trans; [exact HpermT|]. apply mflat_mk_part. }
+    split; [exact HnaH|]. split; [reflexivity|]. auto. }
   (* the ordinary case: the trailer decoder sees everything up to the last token *)
   assert (Hne2 : x2 :: r2x <> []) by discriminate.
   pose proof (app_removelast_last t10 Hne2) as Hr2.
@@ -1249,21 +1278,24 @@ Proof.
     destruct (mand_ok_ext _ 10 s0 tr10 Hndt Hf10 Hm10) as [Hme1 Hme2]. rewrite Hme2. rewrite Hme1 in PT.
     destruct (mand_ok (c_trailer c) s0).
     2:{ destruct PT as (e & He). rewrite He. cbn [bind]. eauto. }
-    destruct PT as (t & cT & EcT & HresT & _ & HpermT). rewrite HresT. cbn [bind].
-    exists h, b, t, (offt + lenN (ser cT)). split; [reflexivity|]. intros _. exists [].
-    rewrite app_nil_r in EcT. subst cT. rewrite app_nil_r.
-    assert (HpT : Permutation (mflat t) (map snd (c_trl_init c) ++ map tok_pair r2')).
-    { eapply perm_trans; [exact HpermT|]. apply Permutation_app_tail. apply mflat_mk_part. }
-    rewrite app_assoc. eapply perm_trans; [apply Permutation_app; [exact Hperm0 | exact HpT]|].
-    rewrite Emid. unfold init_pairs. rewrite (map_app tok_pair (cH ++ cB) r2').
-    generalize (map tok_pair (cH ++ cB)) (map tok_pair r2') (map snd (c_hdr_init c)) (map snd (c_trl_init c)).
-    intros M R A T. rewrite <- !app_assoc. apply Permutation_app_head.
-    rewrite !app_assoc. apply Permutation_app_tail. apply Permutation_app_comm.
+    destruct PT as (t & cT & EcT & HresT & HrelT & HpermT & HmonoT).
+    assert (Hin10 : In 10 (pos_tags t)).
+    { eapply (decoded_has c bytes _ _ (s0 ++ [10]) t); [exact Hwt | exact (part_init_inv _ _ _ Hwt Hit) | exact HresT | exact HrelT |].
+      apply HmonoT. reflexivity. }
+    rewrite HresT. cbn [bind].
+    exists h, b, t, (offt + lenN (ser cT)). split; [reflexivity|]. intros _.
+    rewrite app_nil_r in EcT. subst cT.
+    exists cH, cB, r2', [].
+    split. { rewrite app_nil_r, Emid, <- app_assoc. reflexivity. }
+    split. { intros e []. }
+    split; [exact HpH|]. split; [exact HpermB|].
+    split. { eapply perm_trans; [exact HpermT|]. apply Permutation_app_tail. apply mflat_mk_part. }
+    split; [exact HnaH|]. split; [exact Hno10|]. auto.
   - destruct HX as (s0 & Es & HX). rewrite HX. subst sT.
     destruct (mand_ok_ext _ 10 s0 tr10 Hndt Hf10 Hm10) as [Hme1 _]. rewrite Hme1 in PT.
     destruct (mand_ok (c_trailer c) s0).
     2:{ destruct PT as (e & He). rewrite He. cbn [bind]. eauto. }
-    destruct PT as (t & cT & EcT & HresT & _ & HpermT). rewrite HresT. cbn [bind].
+    destruct PT as (t & cT & EcT & HresT & _ & HpermT & _). rewrite HresT. cbn [bind].
     exists h, b, t, (offt + lenN (ser cT)). split; [reflexivity|]. intros E. discriminate E.
 Qed.
 End Assembly.
@@ -1319,6 +1351,105 @@ Proof.
   rewrite cstr_nonzero by (repeat constructor; lia). rewrite HA. lia.
 Qed.
 
+(* ------------------------------------------------------------------ the setters of factory on mflat *)
+Lemma pos_set_perm f v w : forall pos X G,
+  In f (tags_of pos) -> Permutation (map snd pos ++ G) ((f, w) :: X) ->
+  (forall e, In e X -> fst e <> f) ->
+  Permutation (map snd (pos_set f v pos) ++ G) ((f, v) :: X).
+Proof.
+  induction pos as [|[q [g u]] r IH]; intros X G Hin Hperm Hno; [destruct Hin|].
+  cbn [pos_set]. destruct (g =? f) eqn:E.
+  - apply N.eqb_eq in E. subst g. cbn [map snd app] in *.
+    assert (Hu : In (f, u) ((f, w) :: X)) by (apply (Permutation_in _ Hperm); left; reflexivity).
+    destruct Hu as [Hu|Hu]; [|exfalso; apply (Hno _ Hu); reflexivity].
+    injection Hu as <-. apply perm_skip. eapply Permutation_cons_inv. exact Hperm.
+  - apply N.eqb_neq in E. cbn [map snd app tags_of fst] in *.
+    destruct Hin as [Hin|Hin]; [congruence|].
+    assert (Hu : In (g, u) ((f, w) :: X)) by (apply (Permutation_in _ Hperm); left; reflexivity).
+    destruct Hu as [Hu|Hu]; [congruence|].
+    destruct (in_split _ _ Hu) as (X1 & X2 & ->).
+    assert (Hperm' : Permutation (map snd r ++ G) ((f, w) :: X1 ++ X2)).
+    { apply (Permutation_cons_inv (a := (g, u))). eapply perm_trans; [exact Hperm|].
+      eapply perm_trans; [apply perm_skip; apply Permutation_sym; apply Permutation_middle|]. apply perm_swap. }
+    assert (Hno' : forall e, In e (X1 ++ X2) -> fst e <> f).
+    { intros e He. apply Hno. apply in_app_or in He. apply in_or_app. destruct He; [left | right; right]; assumption. }
+    specialize (IH (X1 ++ X2) G Hin Hperm' Hno').
+    eapply perm_trans; [apply perm_skip; exact IH|].
+    eapply perm_trans; [apply perm_swap|]. apply perm_skip. apply Permutation_middle.
+Qed.
+
+Lemma mflat_set_value m f v w X :
+  In f (pos_tags m) -> Permutation (mflat m) ((f, w) :: X) -> (forall e, In e X -> fst e <> f) ->
+  Permutation (mflat (set_value m f v)) ((f, v) :: X).
+Proof.
+  destruct m as [fp subs fields pos groups unk]. unfold pos_tags, set_value.
+  cbn [mb_pos mb_fields with_pos with_fields mflat]. apply pos_set_perm.
+Qed.
+Lemma pos_tags_set_value m f v : pos_tags (set_value m f v) = pos_tags m.
+Proof. destruct m. unfold pos_tags, set_value. cbn [mb_pos mb_fields with_pos with_fields]. apply tags_pos_set. Qed.
+
+Lemma no_auto_tag g ts f : no_auto g ts = true -> is_auto g f = true ->
+  forall e, In e (map tok_pair ts) -> fst e <> f.
+Proof.
+  intros Hna Ha e He. apply in_map_iff in He. destruct He as (t & <- & Ht). cbn [tok_pair fst].
+  unfold no_auto in Hna. rewrite forallb_forall in Hna. specialize (Hna _ Ht). intros E. rewrite E, Ha in Hna. discriminate.
+Qed.
+
+Lemma wf_ctx_init c : wf_ctx c = true ->
+  exists p1 p2 p3 v9 v35 p4 v10,
+    c_hdr_init c = [(p1, (8, c_begin c)); (p2, (9, v9)); (p3, (35, v35))] /\ c_trl_init c = [(p4, (10, v10))].
+Proof.
+  intros Hwf. destruct (wf_ctx_all c Hwf) as (_ & _ & _ & _ & Hfh & Hft & _).
+  unfold wf_ctx in Hwf.
+  apply andb_true_iff in Hwf. destruct Hwf as [H _]. apply andb_true_iff in H. destruct H as [H _].
+  apply andb_true_iff in H. destruct H as [H _]. apply andb_true_iff in H. destruct H as [_ A7].
+  destruct (c_hdr_init c) as [|[p1 [f1 v1]] [|[p2 [f2 v2]] [|[p3 [f3 v3]] [|x l]]]]; cbn [map fst snd] in Hfh; try discriminate.
+  injection Hfh as -> -> ->. apply list_eqb_eq in A7. subst v1.
+  destruct (c_trl_init c) as [|[p4 [f4 v4]] [|x l]]; cbn [map fst snd] in Hft; try discriminate.
+  injection Hft as ->. exists p1, p2, p3, v2, v3, p4, v4. split; reflexivity.
+Qed.
+
+Lemma final_perm c h b t cH cB cT extra mid (L MT CK v9 v35 v10 : list N) :
+  Permutation (map tok_pair (cH ++ cB ++ cT)) (map tok_pair mid ++ extra) ->
+  Permutation (mflat h) ([(8, c_begin c); (9, v9); (35, v35)] ++ map tok_pair cH) ->
+  Permutation (mflat b) (map tok_pair cB) ->
+  Permutation (mflat t) ([(10, v10)] ++ map tok_pair cT) ->
+  no_auto (c_header c) cH = true -> is_auto (c_header c) 9 = true -> is_auto (c_header c) 35 = true ->
+  forallb (fun t => negb (k_tag t =? 10)) cT = true ->
+  In 9 (pos_tags h) -> In 35 (pos_tags h) -> In 10 (pos_tags t) ->
+  Permutation (mflat (set_value (set_value h 9 L) 35 MT) ++ mflat b ++ mflat (set_value t 10 CK))
+              ([(8, c_begin c); (9, L); (35, MT); (10, CK)] ++ map tok_pair mid ++ extra).
+Proof.
+  intros Hall HpH HpB HpT Hna Ha9 Ha35 Hno10 Hi9 Hi35 Hi10.
+  set (a8 := (8, c_begin c)). cbn [app] in HpH, HpT.
+  assert (H9 : Permutation (mflat (set_value h 9 L)) ((9, L) :: a8 :: (35, v35) :: map tok_pair cH)).
+  { apply (mflat_set_value h 9 L v9); [assumption | eapply perm_trans; [exact HpH | apply perm_swap] |].
+    intros e [<-|[<-|He]]; [discriminate | discriminate | eapply no_auto_tag; eassumption]. }
+  assert (H35 : Permutation (mflat (set_value (set_value h 9 L) 35 MT)) ((35, MT) :: (9, L) :: a8 :: map tok_pair cH)).
+  { apply (mflat_set_value _ 35 MT v35); [rewrite pos_tags_set_value; assumption| |].
+    - eapply perm_trans; [exact H9|]. eapply perm_trans; [apply perm_skip; apply perm_swap|]. apply perm_swap.
+    - intros e [<-|[<-|He]]; [discriminate | discriminate | eapply no_auto_tag; eassumption]. }
+  assert (H10 : Permutation (mflat (set_value t 10 CK)) ((10, CK) :: map tok_pair cT)).
+  { apply (mflat_set_value t 10 CK v10); [assumption | exact HpT |].
+    intros e He. apply in_map_iff in He. destruct He as (x & <- & Hx). cbn [tok_pair fst].
+    rewrite forallb_forall in Hno10. specialize (Hno10 _ Hx). apply negb_true_iff in Hno10. apply N.eqb_neq. assumption. }
+  eapply perm_trans; [apply Permutation_app; [exact H35 | apply Permutation_app; [exact HpB | exact H10]]|].
+  eapply perm_trans; [|apply Permutation_app_head; exact Hall].
+  rewrite !map_app. cbn [app].
+  generalize (map tok_pair cH) (map tok_pair cB) (map tok_pair cT). intros A B C0.
+  (* (35 :: 9 :: 8 :: A) ++ B ++ 10 :: C  ~  8 :: 9 :: 35 :: 10 :: A ++ B ++ C *)
+  rewrite app_assoc.
+  change (((35, MT) :: (9, L) :: a8 :: A) ++ B) with ((35, MT) :: (9, L) :: a8 :: (A ++ B)).
+  eapply perm_trans;
+    [apply Permutation_sym; apply (Permutation_middle ((35, MT) :: (9, L) :: a8 :: (A ++ B)) C0 (10, CK))|].
+  cbn [app]. rewrite <- app_assoc.
+  change ((10, CK) :: (35, MT) :: (9, L) :: a8 :: A ++ B ++ C0)
+    with ([(10, CK); (35, MT); (9, L); a8] ++ (A ++ B ++ C0)).
+  change (a8 :: (9, L) :: (35, MT) :: (10, CK) :: A ++ B ++ C0)
+    with ([a8; (9, L); (35, MT); (10, CK)] ++ (A ++ B ++ C0)).
+  apply Permutation_app_tail. apply (Permutation_rev [(10, CK); (35, MT); (9, L); a8]).
+Qed.
+
 (* ------------------------------------------------------------------ Message::factory vs conforms *)
 Lemma exact_hyps_facts c toks : exact_hyps c toks = true ->
   framed toks = true /\ toks_ok c toks = true /\
@@ -1357,10 +1488,13 @@ Lemma verdict_unfold c t8 t9 t35 r : framed (t8 :: t9 :: t35 :: r) = true ->
   end.
 Proof. intros H. unfold struct_verdict. rewrite H. reflexivity. Qed.
 
-Lemma exact_accept_lemma c toks :
+Lemma exact_full_lemma c toks :
   wf_ctx c = true -> exact_hyps c toks = true -> struct_verdict c toks <> VIllegal ->
   match strict_factory c (ser toks) with
-  | Ok m => conforms c (ser toks) = true
+  | Ok m => conforms c (ser toks) = true /\
+            exists extra, Permutation (mflat (m_hdr m) ++ mflat (m_body m) ++ mflat (m_trl m))
+                                      (expected_pairs c toks ++ extra) /\
+                          (forall e, In e extra -> In e (map tok_pair toks))
   | Exc _ => conforms c (ser toks) = false
   | _ => False
   end.
@@ -1371,7 +1505,7 @@ Proof.
   destruct (Hlens _ _ _ _ Etoks) as (L9 & L35 & Hdig). rewrite Elast in Hdig. rewrite Emid in Hah, Hat.
   assert (Htk : tokenize (ser toks) = Some toks) by (eapply tokenize_ser; eassumption).
   unfold conforms. rewrite Htk.
-  subst toks. rewrite (verdict_unfold c _ _ _ _ Hfr) in *.
+  subst toks. pose proof Elast as Elast'. pose proof Emid as Emid'. rewrite (verdict_unfold c _ _ _ _ Hfr) in *.
   pose proof Hok as Hok'.
   destruct (toks_ok_cons _ _ _ Hok') as [Ho8 Hr1]. destruct (toks_ok_cons _ _ _ Hr1) as [Ho9 Hr2].
   destruct (toks_ok_cons _ _ _ Hr2) as [Ho35 Hr3].
@@ -1399,7 +1533,9 @@ Proof.
   destruct (part (c_trailer c) r2) as [|sT r3].
   { destruct HD as (e & He). unfold decode_result in He. fold toks hlen R in He. rewrite He. cbn [bind is_conf]. apply andb_false_r. }
   destruct r3 as [|x3 r3']; [|exfalso; apply Hill; reflexivity].
-  destruct HD as (h & b & t & tl & HR & _). unfold decode_result in HR. fold toks hlen R in HR. rewrite HR.
+  destruct HD as (h & b & t & tl & HR & HP). unfold decode_result in HR. fold toks hlen R in HR. rewrite HR.
+  destruct (HP eq_refl) as (cH & cB & cT & extra & Hall & Hextra & HpH & HpB & HpT & HnaH & Hno10 & Hi9 & Hi35 & Hi10).
+  clear HP.
   cbn [bind m_hdr m_body m_trl m_type is_conf]. rewrite andb_true_r.
   (* the last seven bytes and the checksum *)
   set (bytes := ser toks) in *.
@@ -1434,5 +1570,33 @@ Proof.
   { unfold chk_ok. cbv zeta. rewrite E7. replace (lenN bytes - 7) with (lenN pre) by lia.
     rewrite Hb at 1. rewrite skipN_app, Hs10. rewrite Ha, Hb0, Hd. reflexivity. }
   rewrite Hchk.
-  destruct ((a - 48) * 100 + (b0 - 48) * 10 + (d - 48) =? sumN (firstN (lenN pre) bytes) mod 256); reflexivity.
+  destruct ((a - 48) * 100 + (b0 - 48) * 10 + (d - 48) =? sumN (firstN (lenN pre) bytes) mod 256); [|reflexivity].
+  split; [reflexivity|]. exists extra. cbn [m_hdr m_body m_trl].
+  split.
+  2:{ intros e He. rewrite (Hextra e He). apply in_map. unfold toks. right. right. right.
+      apply in_or_app. right. left. reflexivity. }
+  destruct (wf_ctx_init c Hwf) as (p1 & p2 & p3 & v9 & v35 & p4 & v10 & Ehi & Eti).
+  rewrite Ehi in HpH. rewrite Eti in HpT. cbn [map snd] in HpH, HpT.
+  destruct (wf_ctx_all c Hwf) as (_ & _ & Hih & _ & Hfh & _).
+  assert (Ha9 : is_auto (c_header c) 9 = true).
+  { rewrite (init_ok_auto _ _ 9 Hih), Hfh. destruct (init_ok_plain _ _ 9 Hih ltac:(rewrite Hfh; cbn; auto)) as (x & Hx & _).
+    rewrite Hx. reflexivity. }
+  assert (Ha35 : is_auto (c_header c) 35 = true).
+  { rewrite (init_ok_auto _ _ 35 Hih), Hfh. destruct (init_ok_plain _ _ 35 Hih ltac:(rewrite Hfh; cbn; auto)) as (x & Hx & _).
+    rewrite Hx. reflexivity. }
+  unfold expected_pairs, toks. fold toks. rewrite Elast', Emid'. rewrite Ev10.
+  rewrite <- app_assoc.
+  apply (final_perm c h b t cH cB cT extra mid _ _ _ v9 v35 v10); assumption.
+Qed.
+
+Lemma exact_accept_lemma c toks :
+  wf_ctx c = true -> exact_hyps c toks = true -> struct_verdict c toks <> VIllegal ->
+  match strict_factory c (ser toks) with
+  | Ok m => conforms c (ser toks) = true
+  | Exc _ => conforms c (ser toks) = false
+  | _ => False
+  end.
+Proof.
+  intros Hwf Hhyp Hill. pose proof (exact_full_lemma c toks Hwf Hhyp Hill) as H.
+  destruct (strict_factory c (ser toks)); try assumption. apply H.
 Qed.
